@@ -3,8 +3,9 @@
 //! Replies: `ok ...` or (from main.rs) `panic <file>:<line> <msg>`.
 //!
 //!   gp consts                                             -> ok MARK CURSIVE RIGHT_TO_LEFT IGNORE_MARKS IGNORE_FLAGS
-//!                                                              gp:BASE_GLYPH gp:MARK HAS_GPOS_ATTACHMENT up:IGNORABLE
-//!   gp prop <dir> <len> <i> <pos...>                      one propagate_attachment_offsets call  -> ok <pos...>
+//!                                                              gp:BASE_GLYPH gp:MARK HAS_GPOS_ATTACHMENT up:IGNORABLE MAX_NESTING_LEVEL
+//!   gp prop <dir> <len> <i> <pos...>                      one propagate_attachment_offsets call (budget MAX_NESTING_LEVEL) -> ok <pos...>
+//!   gp propn <dir> <len> <i> <nesting_level> <pos...>     the same with an explicit nesting budget -> ok <pos...>
 //!   gp finish <dir> <len> <has 0|1> <pos...>              GPOS::position_finish_offsets          -> ok <pos...>
 //!   gp start <len> <pos...>                               GPOS::position_start                   -> ok <pos...>
 //!   gp sub <kind> <hex> <props> <dir> <idx> <infos> <model...> | <pos...>
@@ -136,9 +137,18 @@ fn kinfos(s: &str) -> Option<Vec<k::I>> {
 pub fn handle(toks: &[&str], _st: &mut crate::State) -> Option<String> {
     match (toks[0], *toks.get(1)?) {
         ("gp", "consts") => Some(format!(
-            "ok {}",
-            g::consts().iter().map(|x| x.to_string()).collect::<Vec<_>>().join(" ")
+            "ok {} {}",
+            g::consts().iter().map(|x| x.to_string()).collect::<Vec<_>>().join(" "),
+            g::max_nesting_level()
         )),
+        ("gp", "propn") => {
+            let d = dir(toks.get(2)?)?;
+            let len: usize = toks.get(3)?.parse().ok()?;
+            let i: usize = toks.get(4)?.parse().ok()?;
+            let nl: usize = toks.get(5)?.parse().ok()?;
+            let p = pos(&toks[6..])?;
+            Some(format!("ok {}", fmt_pos(&g::propagate_level(&p, len, i, d, nl))))
+        }
         ("gp", "prop") => {
             let d = dir(toks.get(2)?)?;
             let len: usize = toks.get(3)?.parse().ok()?;
